@@ -11,6 +11,8 @@
     golden-corpus pairs/triples, generated failing predecessors (open constructs, mode changes), one
     ASSUME/ON-OFF setter per inventory variable against golden successors of the same target, and
     trailing-statement files under one forced further pass.
+(A+B+C) c18_options.py: the same under invocation options that create per-file state or per-file outputs (-E, -L, -g, -Y, ...):
+    every output file of the joint run vs the stand-alone runs; Model/FileOut.lean (error log handle, JmpErrors) and Props/C18_Outputs.lean.
 (A'+C') c18_statics.py: the reset inventory widened to every file-scope / function-static variable of every code*.c
     (Generated/GenStatics.lean, Props/C18_Statics.lean), the experiments behind its exception list and setter histories
     for the persistent variables whose writing instruction is known.
@@ -525,8 +527,8 @@ def run(args):
             for fn in sorted(os.listdir(cdir)):
                 if fn.endswith(".json"):
                     d = json.load(open(os.path.join(cdir, fn)))
-                    if d.get("kind") == "history":
-                        continue   # two-file witnesses, run by c18_targetdesc.py
+                    if d.get("kind") in ("history", "options"):
+                        continue   # two-file witnesses, run by c18_targetdesc.py / histories under options, run by c18_options.py
                     key = (d["file"], d["var"])
                     if key in pidx:
                         i = pidx[key]
@@ -818,6 +820,13 @@ def run(args):
         evaluations += n_td
         dist["targetdesc_part_wall_s"] = round(_time.time() - _t0, 1)
 
+        # ---------------- invocation options that create per-file state / per-file outputs (error log, listing, map, share file, -Y bookkeeping ...)
+        from . import c18_options
+        _t0 = _time.time()
+        n_op, options_ev = c18_options.run(bdir, wd, args, common.rng_for(args.seed, "C18opt"), spec_fail, corr_fail, proof_problems, dist, distinct, samples, drv_ok)
+        evaluations += n_op
+        dist["options_part_wall_s"] = round(_time.time() - _t0, 1)
+
     if os.environ.get("C18_DEBUG"):
         with open(os.environ["C18_DEBUG"], "w") as fh:
             json.dump(dict(spec=spec_fail, corr=corr_fail, proof=proof_problems), fh, indent=1, default=str)
@@ -832,13 +841,15 @@ def run(args):
         "after `cpu <name>` for every CPU name, poisoned between the lines with two different values; the two routes are cross-checked) and the exception lists of "
         "Props/C18_TargetDesc.lean / c18_targetdesc.py",
         "correspondence: real asl vs Model.TargetDesc (label values, error flag) and Model.SharedState (records with exports) on generated histories (differential test)",
+        "correspondence: real asl vs Model.FileOut (error log handle, ErrorCount/WarnCount/JmpErrors, -Y/-maxerrors/-Werror, pass loop over a 6502 statement set) on generated "
+        "histories under option sets (differential test); differential part under 42 option atoms: every per-file output of the joint run vs the stand-alone run",
         "correspondence: real asl vs Model.Files on probe histories (differential test); probes calibrated on the real binary each run",
         "differential part (labelled): golden-corpus pairs/triples and generated predecessors, `asl a b` vs `asl a`, `asl b`"])
     res.coverage.update(
         evaluations=evaluations, distinct_nontrivial=len(distinct),
         rule="one evaluation = one joint run `asl f1..fn` (n >= 2, or n = 1 with a forced further pass) compared file by file with the single runs; "
              "distinct by (ordered) file list / op list; non-trivial = at least two files or a forced pass",
-        samples=samples, distribution=dist, inventory_not_reset=unreset_inv, statics=statics_ev, target_description=targetdesc_ev,
+        samples=samples, distribution=dist, inventory_not_reset=unreset_inv, statics=statics_ev, target_description=targetdesc_ev, options=options_ev,
         core_vars_needing_per_pass_reset=[r["var"] for r in core_rows if r["cls"] == "perpass"])
     res.assumptions = ["the state of a code generator is its file-scope and function-static variables (Generated/GenStatics, all code*.c) plus what its ASSUMERec tables, AddONOFF calls, "
                        "tCPUArg tables and a pASSUMEOverride handler reach (Generated/GenState); statics of the shared *pseudo.c helpers are covered only by the differential histories",
@@ -859,6 +870,10 @@ def replay(args):
     print(json.dumps({k: (v if len(str(v)) < 3000 else str(v)[:3000] + "...") for k, v in d.items()}, indent=1, default=str))
     bdir = common.repo_build("hooks")
     with common.Workdir("c18r") as wd:
+        if "option_sources" in d:
+            from . import c18_options
+            c18_options.replay(bdir, wd, d)
+            return 0
         env = None
         if d.get("extra_passes") or d.get("env"):
             env = {"ASL_VERIF_EXTRA_PASSES": str(d.get("extra_passes") or 1)}
